@@ -8,9 +8,9 @@ CONSTANTS
   SpinMax = 1
   MaxSpur = 1
   MaxWaits = 2
-  SMenu = {"send", "try_send"}
-  RMenu = {"recv", "close"}
-  Wk <- Wk1
+  SMenu = {"asend", "try_send"}
+  RMenu = {"arecv", "close"}
+  Wk <- WkSet
   MaxNow = 0
   FIX = TRUE
 INVARIANTS DisconnectShape NoStuck
